@@ -18,6 +18,7 @@ import TdVerif.Lemmas.C08Cat
 import TdVerif.Lemmas.C08Stack
 import TdVerif.Lemmas.C08Two
 import TdVerif.Lemmas.C08CatN
+import TdVerif.Lemmas.C08Apply
 
 namespace TdVerif.Props.C08
 open TdVerif.C08
@@ -533,6 +534,25 @@ theorem insert_is_list_insert [Inhabited α] (L L' : Lazy α) (b : Shape) (keys 
       L' = { L with members := L.members.insertIdx i m } ∧ Uniform L' b keys feat ∧ m.batch = b :=
   insert_refines L L' b keys feat hU index m hmk hml hne h
 
+/-! ## pointwise operations (apply, arithmetic, comparisons, where / masked_fill with an operand) -/
+
+/-- **`lazy.apply(fn)` is `dense.apply(fn)`** for a pointwise `fn` (`_apply_nest`: member by
+member, lazily re-stacked along the same stack dim). -/
+theorem apply_refines [Inhabited α] (L : Lazy α) (b : Shape) (keys : List String) (feat : String → Shape)
+    (hU : Uniform L b keys feat) (hne : L.members ≠ []) (g : α → α) :
+    absL (lazyApply1 L g) ≈ (absL L).apply1 g :=
+  apply1_refines L b keys feat hU hne g
+
+/-- **`lazy.apply(fn, other)` is `dense.apply(fn, other)`**: `other` (of the stack's batch size) is
+unbound along the stack dim and piece `i` meets member `i` — the path taken by `lazy + other`,
+`lazy == other`, `lazy.where(mask, other)` … -/
+theorem apply_with_operand_refines [Inhabited α] (L : Lazy α) (b : Shape) (keys : List String) (feat : String → Shape)
+    (hU : Uniform L b keys feat) (hne : L.members ≠ []) (other : TD α)
+    (hob : other.batch = (absL L).batch) (g : α → α → α)
+    (L' : Lazy α) (h : lazyApply2 L other g = some L') :
+    L'.sd = L.sd ∧ L'.members.length = L.members.length ∧ absL L' ≈ (absL L).apply2 g other :=
+  apply2_refines L b keys feat hU hne other hob g L' h
+
 /-! ## stacks of stacks -/
 
 /-- **Reads of a lazy stack whose members are lazy stacks compose**: for an Ellipsis-free index
@@ -604,6 +624,10 @@ example : (match lazyCat [exL, exL, exL] 1 with
     | some L' => (L'.sd, L'.members.length, (absL L').batch) | none => (99, 0, [])) = (1, 9, [2, 9]) := by decide
 example : (match lazyCat [exL, exL, exL] (-2) with
     | some L' => (L'.sd, L'.members.length, (absL L').batch) | none => (99, 0, [])) = (1, 3, [6, 3]) := by decide
+-- pointwise: `lazy.apply(x ↦ 2x + 1)` and `lazy.apply((x, y) ↦ x - y, dense)` (dense = the stack itself)
+example : ((absL (lazyApply1 exL (fun x => 2 * x + 1))).leaf "a").toList = [1, 21, 41, 3, 23, 43] := by decide
+example : (match lazyApply2 exL (absL exL) (fun x y => x - y) with
+    | some L' => ((absL L').leaf "a").toList | none => [7]) = [0, 0, 0, 0, 0, 0] := by decide
 -- stack of stacks: two copies of `exL` stacked at dim 0 (batch [2, 2, 3]); `lol[1, :, 2]` is
 -- `inner_1[:, 2]` = member 2 of the second inner stack
 def exL2 : Lazy2 Int := ⟨[exL, exL], 0⟩
